@@ -80,7 +80,11 @@ pub fn worker_main(spec_path: &str) -> i32 {
                 "?".into()
             };
             let partial = crate::PARTIAL.lock().map(|p| p.clone()).unwrap_or_default();
-            let r = WorkerResult { verdict: "panic".into(), detail: format!("{loc}: {msg}"), log: partial.0, tape: partial.1, ..Default::default() };
+            let bt = std::backtrace::Backtrace::force_capture().to_string();
+            let frames: Vec<&str> = bt.lines().filter(|l| l.contains("/repo/src") || l.contains("bugstalker::")).take(24).collect();
+            let mut log = partial.0;
+            log.push(format!("panic backtrace: {}", frames.join(" | ")));
+            let r = WorkerResult { verdict: "panic".into(), detail: format!("{loc}: {msg}"), log, tape: partial.1, ..Default::default() };
             r.write(&out2);
             unsafe { libc::_exit(3) };
         }));
